@@ -1,18 +1,18 @@
 CONSTANTS
   MaxCmds = 3
-  MaxPending = 3
+  MaxPending = 2
   MaxNum = 1
   MaxItems = 1
-  MaxUid = 0
-  MaxCode = 0
+  MaxUid = 1
+  MaxCode = 1
   NFlagSets = 1
-  SyncLit = FALSE
-  Kinds = {"NOOP", "LIST", "SEARCH"}
+  SyncLit = TRUE
+  Kinds = {"STATUS", "APPEND", "NOOP", "SELECT"}
   Greetings = {"PREAUTH"}
   SimDepth = 0
   Count = FALSE
-  MaxDepth = 6
+  MaxDepth = 0
 INIT GenInit
 NEXT GenNext
-VIEW DepthView
+VIEW GenView
 CHECK_DEADLOCK FALSE
